@@ -194,7 +194,8 @@ def run_sequence(events):
                 elif not counted:
                     verdict = B._judge(files, boot, unit, limit, force, deleted, crash, refused)
                     if verdict:
-                        bad(f"json-live:{verdict[0]}:{unit}", verdict[0], k, {"deleted": sorted(deleted), "crash": crash, "refusal_warning": refused}, {"acceptable_deletion_sets": verdict[1]})
+                        key = B._key(verdict[0], unit, limit, force) if verdict[0] == "unlink-order-not-oldest-first" else f"json-live:{verdict[0]}:{unit}"
+                        bad(key, verdict[0], k, {"deleted": sorted(deleted), "crash": crash, "refusal_warning": refused}, {"acceptable_deletion_sets": verdict[1]})
     finally:
         W.xsh.history = old_hist
     return viols, done
